@@ -1,4 +1,5 @@
 import Sgz.Generated.Source
+import Mathlib.Tactic.Ring
 import Sgz.Model.Loader
 import Sgz.Model.Reader
 import Sgz.Model.Crop
@@ -14,6 +15,8 @@ import Sgz.Model.Emul
 import Sgz.Model.Irregular
 import Sgz.Model.Xarray
 import Sgz.Model.SegyRaw
+import Sgz.Model.Export
+import Sgz.Model.IO
 /-!
 # Tie/Source — the model's arithmetic is the arithmetic of the source as it is now
 
@@ -579,5 +582,137 @@ theorem segyraw_read_line (nxl ns i : Nat) :
     SegyRaw.readLine nxl ns i = (Gen.segyraw_seek Gen.const_segy_file_header i ns nxl,
                                   Gen.segyraw_length Gen.const_segy_trace_header ns nxl) := by
   unfold SegyRaw.readLine Gen.segyraw_seek Gen.segyraw_length Gen.const_segy_file_header Gen.const_segy_trace_header; rfl
+
+/-! ### SEG-Y export: where the copied file header is read; axis inference of irregular surveys; the range-read length check -/
+
+/-- `convert_to_segy` / `write_segy`: the two binary-header fields are read at the model's positions of the stored SEG-Y
+file header, with the decodings the model uses; segyio is asked for `max(n, 0)` extended headers; formats 1 and 5 are kept;
+the first 3600 bytes of the stored header are written back -/
+theorem export_positions :
+    Gen.export_fmt_lo Gen.const_disk_block = Export.segyHeaderAt + Export.formatAt
+    ∧ Gen.export_fmt_hi Gen.const_disk_block = Export.segyHeaderAt + Export.formatAt + 2
+    ∧ Gen.export_fmt_format = ">H"
+    ∧ Gen.export_ext_lo Gen.const_disk_block = Export.segyHeaderAt + Export.extCountAt
+    ∧ Gen.export_ext_hi Gen.const_disk_block = Export.segyHeaderAt + Export.extCountAt + 2
+    ∧ Gen.export_ext_format = ">h"
+    ∧ Gen.export_filehdr_lo Gen.const_disk_block = Export.segyHeaderAt
+    ∧ Gen.export_filehdr_hi Gen.const_disk_block Gen.const_segy_file_header = Export.segyHeaderAt + Export.fileHeaderBytes :=
+  ⟨rfl, rfl, rfl, rfl, rfl, rfl, rfl, rfl⟩
+
+theorem export_ext_count (fh : Nat → Nat) (h0 : fh Export.extCountAt < 256) (h1 : fh (Export.extCountAt + 1) < 256) :
+    Gen.export_ext_count (Export.signed16 (fh Export.extCountAt * 256 + fh (Export.extCountAt + 1)))
+      = (Export.extCount fh : Int) := by
+  unfold Gen.export_ext_count Export.signed16 Export.extCount
+  simp only
+  split <;> omega
+
+theorem export_format_kept (c : Nat) : Gen.export_fmt_kept (c : Int) ↔ Export.supportedFormat c = true := by
+  unfold Gen.export_fmt_kept Export.supportedFormat
+  simp only [Bool.or_eq_true, beq_iff_eq]
+  omega
+
+/-- `InferredGeometry3d.get_range` and the grid it hands to `Geometry3d` -/
+theorem infer_range (ids : List Int) (h : 1 < ids.length) :
+    Irregular.inferRange ids = some (Gen.infer_min (Irregular.minOf ids), Gen.infer_max (Irregular.maxOf ids),
+      Gen.infer_step ids.length (Irregular.maxOf ids) (Irregular.minOf ids)) := by
+  unfold Irregular.inferRange Gen.infer_min Gen.infer_max Gen.infer_step
+  rw [if_neg (by omega)]
+  have hpos : (0 : Int) ≤ (ids.length : Int) - 1 := by omega
+  rw [Int.fdiv_eq_ediv_of_nonneg _ hpos]
+
+theorem infer_stop (m : Int) : Gen.infer_stop_il m = m + 1 ∧ Gen.infer_stop_xl m = m + 1 := ⟨rfl, rfl⟩
+
+/-- `check_range_length`: a range read is refused exactly when it does not deliver the requested number of bytes — for a
+read that cannot deliver more than was asked (`file.read(n)`, a blob range) that is `File.readRange`'s / `runFaulty`'s
+"fewer than requested" -/
+theorem range_short (got len : Nat) (h : got ≤ len) : Gen.range_short (got : Int) (len : Int) ↔ got < len := by
+  unfold Gen.range_short; omega
+
+/-! ### the cropper's and the re-blocker's header patches; the re-blocker's byte moves -/
+
+/-- `regenerate_header` patches every field at the offset at which `make_header` wrote it, with the box lengths of
+`Derived.cropHeader` -/
+theorem crop_header_patches (b : Crop.Box) :
+    Gen.cw_n_samples = Gen.w_n_samples ∧ Gen.cw_n_xl = Gen.w_n_xl ∧ Gen.cw_n_il = Gen.w_n_il ∧ Gen.cw_z_start = Gen.w_z_start
+    ∧ Gen.cw_xl0 = Gen.w_xl0 ∧ Gen.cw_il0 = Gen.w_il0 ∧ Gen.cw_data_blocks = Gen.w_data_blocks
+    ∧ Gen.cw_array_bytes = Gen.w_array_bytes ∧ Gen.cw_tracecount = Gen.w_tracecount
+    ∧ Gen.cw_len_z b.z0 b.z1 = b.z1 - b.z0 ∧ Gen.cw_len_x b.x0 b.x1 = b.x1 - b.x0 ∧ Gen.cw_len_i b.i0 b.i1 = b.i1 - b.i0
+    ∧ Gen.cw_tracecount_structured (b.i1 - b.i0) (b.x1 - b.x0) = (b.x1 - b.x0) * (b.i1 - b.i0) :=
+  ⟨rfl, rfl, rfl, rfl, rfl, rfl, rfl, rfl, rfl, rfl, rfl, rfl, rfl⟩
+
+/-- `convert_to_adv_sgz` patches blockshape and data length where `make_header` wrote them, to the values of
+`Derived.reblockHeader` (2 bits per voxel: `q = 8`) -/
+theorem reblock_header_patches (f : Header.Fields) (hq : f.q = 8) :
+    Gen.rb_w_b0 = Gen.w_b0 ∧ Gen.rb_w_b1 = Gen.w_b1 ∧ Gen.rb_w_b2 = Gen.w_b2 ∧ Gen.rb_w_data_blocks = Gen.w_data_blocks
+    ∧ (Derived.reblockHeader f).b0 = Gen.rb_b0 ∧ (Derived.reblockHeader f).b1 = Gen.rb_b1 ∧ (Derived.reblockHeader f).b2 = Gen.rb_b2
+    ∧ (Derived.reblockHeader f).dataBlocks =
+        Gen.rb_data_blocks Gen.const_disk_block (Reblock.outGeo (Derived.geoOf f)).P0 (Reblock.outGeo (Derived.geoOf f)).P1
+          (Reblock.outGeo (Derived.geoOf f)).P2 2 := by
+  refine ⟨rfl, rfl, rfl, rfl, rfl, rfl, rfl, ?_⟩
+  unfold Derived.reblockHeader Container.diskBlocks Gen.rb_data_blocks Gen.const_disk_block
+  simp only [hq]
+  generalize (Reblock.outGeo (Derived.geoOf f)).P0 = a
+  generalize (Reblock.outGeo (Derived.geoOf f)).P1 = b
+  generalize (Reblock.outGeo (Derived.geoOf f)).P2 = c
+  have e : 8 * c * b * a = 4 * (2 * c * b * a) := by ring
+  rw [e, Nat.mul_div_cancel_left _ (by omega : 0 < 4), Nat.div_div_eq_div_mul]
+
+/-- the loops of the re-blocker run over the tiles and depths of `Reblock.units` -/
+theorem reblock_loops (g : Geo) :
+    Gen.rb_tiles_i Gen.rb_b0 (Reblock.outGeo g).P0 = (Reblock.outGeo g).NB0
+    ∧ Gen.rb_tiles_x Gen.rb_b1 (Reblock.outGeo g).P1 = (Reblock.outGeo g).NB1
+    ∧ Gen.rb_depths Gen.rb_b2 (Reblock.outGeo g).P2 = (Reblock.outGeo g).NB2 := ⟨rfl, rfl, rfl⟩
+
+/-- **where the bytes of an output unit come from.**  Output unit `u = 16·n + m` at depth `z` of tile `(i, x)` is filled
+from buffer position `rb_src_lo`, which lies `m·chunk + z·unit` bytes into the read made for row `n` (stored at
+`rb_idx_lo`), i.e. from file offset `rb_seek + m·chunk + z·unit`: that is the source unit
+`((16·i + n)·(P1/4) + (16·x + m))·(P2/4) + z` of `Reblock.units`, 16 bytes each, in a source of layout (4,4,1024) at 2 bits
+(`chunk = 4·P2`, `P1 = 4·a`, `P2 = 4·c`) -/
+theorem reblock_source_bytes (ds a c i x n m z : Nat) :
+    let P1 := 4 * a
+    let P2 := 4 * c
+    let chunk := 4 * P2
+    Gen.rb_src_lo chunk (16 * n + m) 16 z = Gen.rb_idx_lo chunk n + (m * chunk + z * 16)
+    ∧ Gen.rb_seek chunk ds i (Gen.rb_inline_bytes 2 P1 P2) n x + (m * chunk + z * 16)
+        = ds + 16 * (((16 * i + n) * (P1 / 4) + (16 * x + m)) * (P2 / 4) + z) := by
+  intro P1 P2 chunk
+  unfold Gen.rb_src_lo Gen.rb_idx_lo Gen.rb_seek Gen.rb_inline_bytes
+  have h1 : P1 / 4 = a := Nat.mul_div_cancel_left a (by omega)
+  have h2 : P2 / 4 = c := Nat.mul_div_cancel_left c (by omega)
+  have h3 : P2 * P1 * 2 / 8 = 4 * a * c := by
+    show 4 * c * (4 * a) * 2 / 8 = 4 * a * c
+    have : 4 * c * (4 * a) * 2 = 8 * (4 * a * c) := by ring
+    rw [this, Nat.mul_div_cancel_left _ (by omega : 0 < 8)]
+  rw [h1, h2, h3]
+  constructor
+  · show (16 * n + m) * (4 * (4 * c)) + z * 16 = n * (4 * (4 * c)) * 16 + (m * (4 * (4 * c)) + z * 16)
+    ring
+  · show ds + x * (4 * (4 * c)) * 16 + 4 * (n + i * 16) * (4 * a * c) + (m * (4 * (4 * c)) + z * 16)
+        = ds + 16 * (((16 * i + n) * a + (16 * x + m)) * c + z)
+    ring
+
+/-- one row read of the re-blocker: `x_count` chunk columns, stored at the row's place in the tile buffer -/
+theorem reblock_row_read (chunk n xc : Nat) :
+    Gen.rb_read_len chunk xc = chunk * xc ∧ Gen.rb_idx_hi chunk n xc = Gen.rb_idx_lo chunk n + Gen.rb_read_len chunk xc
+    ∧ ∀ u z unit, Gen.rb_src_hi chunk u unit z = Gen.rb_src_lo chunk u unit z + unit := by
+  refine ⟨rfl, ?_, ?_⟩
+  · unfold Gen.rb_idx_hi Gen.rb_idx_lo Gen.rb_read_len; rw [Nat.mul_comm xc chunk]
+  · intro u z unit; unfold Gen.rb_src_hi Gen.rb_src_lo; rw [Nat.add_mul, Nat.one_mul, Nat.add_assoc]
+
+/-! ### windowed conversion: which traces header detection looks at -/
+
+/-- `get_blank_header_info` hands the heuristic the first and the last trace *of the window* (`Window.firstTrace`,
+`lastTrace`), and sizes the header arrays for the window's traces -/
+theorem window_detection_traces (N1 : Nat) (w : Window.Win) :
+    Gen.win_first_trace w.a0 w.b0 N1 = Window.firstTrace N1 w
+    ∧ Gen.win_last_trace (w.a1 - 1) (w.b1 - 1) N1 = Window.lastTrace N1 w
+    ∧ Gen.win_n_traces (w.a1 - w.a0) (w.b1 - w.b0) = (w.a1 - w.a0) * (w.b1 - w.b0) := ⟨rfl, rfl, rfl⟩
+
+/-- every trace header the heuristic detection of `HeaderwordInfo` consults is the one at `first_trace` or `last_trace`
+(`Headers.Src.first` / `last`): the table constants, "differs between first and last", "non-zero in the first trace", and
+the duplicate test -/
+theorem heuristic_traces (ft lt : Nat) :
+    Gen.hw_init_trace_a ft = ft ∧ Gen.hw_init_trace_b ft = ft ∧ Gen.hw_fl_first ft = ft ∧ Gen.hw_fl_last lt = lt
+    ∧ Gen.hw_nonzero_trace ft = ft ∧ Gen.hw_dup_first ft = ft ∧ Gen.hw_dup_last lt = lt := ⟨rfl, rfl, rfl, rfl, rfl, rfl, rfl⟩
 
 end Sgz.Tie
